@@ -322,7 +322,8 @@ Section Universal.
   (* operations on states of nesting depth <= d *)
   Fixpoint opsA (d : nat) : cops ast :=
     match d with
-    | O => mk_cops (fun s => (s, (0, 0))) (fun s => (s, false)) (fun s => (s, true)) errA muA
+    | O => mk_cops (fun s => match s with AConst c _ => (s, (c, c)) | _ => (s, (0, 0)) end)
+                   (fun s => (s, false)) (fun s => (s, true)) errA muA
     | S d' =>
         let C := opsA d' in
         let bnd := fun s =>
@@ -362,7 +363,7 @@ Section Universal.
   Fixpoint nat_max_list (l : list nat) : nat := match l with [] => O | x :: l' => Nat.max x (nat_max_list l') end.
   Fixpoint aheight (s : ast) : nat :=
     match s with
-    | AConst _ _ => 1%nat
+    | AConst _ _ => O
     | ASum l => S (nat_max_list (map aheight l))
     | AFixed l _ _ _ => S (nat_max_list (map aheight l))
     | AED _ _ _ e => S (nat_max_list (map (fun row => nat_max_list (map aheight row)) (e_kids e)))
@@ -463,29 +464,6 @@ Section Universal.
       | _ => s
       end.
 
-    Fixpoint nav (path : list nat) (o : bop) (s : ast) : ast * outcome :=
-      match path with
-      | [] => apply_op o s
-      | i :: rest =>
-          match sub_get s i with
-          | None => (s, RNoSub)
-          | Some x => let p := nav rest o x in (sub_put s i (fst p), snd p)
-          end
-      end.
-
-    Definition step (s : ast) (c : call) : ast * outcome := nav (fst c) (snd c) s.
-
-    (* the history; execution stops at the first call that raises *)
-    Fixpoint run_hist (h : history) (s : ast) : ast * list outcome :=
-      match h with
-      | [] => (s, [])
-      | c :: h' =>
-          let p := step s c in
-          let s1 := fst p in
-          let o := snd p in
-          if is_err o then (s1, [o]) else let r := run_hist h' s1 in (fst r, o :: snd r)
-      end.
-
     (* while edit.valid and not edit.is_complete() and edit.tighten_bounds(): pass   (TreeNode.diff) *)
     Fixpoint idiom (fuel : nat) (s : ast) : ast :=
       let p := k_cmp C s in
@@ -512,6 +490,30 @@ Section Universal.
       if errA (fst p) then None else if zdefb b then Some (fst b) else None.
   End Ops.
 
+  (* a call addressed to a sub-edit: the sub-edit is one nesting level down, where its parent operates it, too *)
+  Fixpoint nav (path : list nat) (d : nat) (o : bop) (s : ast) : ast * outcome :=
+    match path with
+    | [] => apply_op d o s
+    | i :: rest =>
+        match sub_get s i with
+        | None => (s, RNoSub)
+        | Some x => let p := nav rest (d - 1) o x in (sub_put s i (fst p), snd p)
+        end
+    end.
+
+  Definition step (d : nat) (s : ast) (c : call) : ast * outcome := nav (fst c) d (snd c) s.
+
+  (* the history; execution stops at the first call that raises *)
+  Fixpoint run_hist (d : nat) (h : history) (s : ast) : ast * list outcome :=
+    match h with
+    | [] => (s, [])
+    | c :: h' =>
+        let p := step d s c in
+        let s1 := fst p in
+        let o := snd p in
+        if is_err o then (s1, [o]) else let r := run_hist d h' s1 in (fst r, o :: snd r)
+    end.
+
   (* the universal machine at depth d as an API machine (ApiSpec.amachine) *)
   Definition AM (d : nat) : amachine :=
     {| ASt := ast; a_bnd := k_bnd (opsA d); a_tig := k_tig (opsA d); a_cmp := k_cmp (opsA d);
@@ -529,7 +531,10 @@ Section Universal.
 
   Fixpoint serA (d : nat) (s : ast) : ast * option edit :=
     match d with
-    | O => (s, None)
+    | O => (s, match s with
+               | AConst c t => Some (match t with TReplace => EReplace c | _ => EMatch c end)
+               | _ => None
+               end)
     | S d' =>
         let own := fun s1 => let s2 := tighten_def d (S (muA s1)) s1 in
                              let p := k_bnd (opsA d) s2 in
